@@ -5,7 +5,8 @@
    returns Ok of the ideal unbounded-arithmetic specification — it can neither panic nor wrap.
    Refuted/C16Legacy.v keeps kernel-checked witnesses that the code before the repairs did. *)
 From Coq Require Import List ZArith NArith Bool Arith.
-From EasyML Require Import Base.Sx Model.Shape Model.U64 Model.Fallible Proofs.ShapeP Proofs.C16P.
+From EasyML Require Import Base.Sx Model.Shape Model.U64 Model.Fallible Model.FallibleApi
+     Proofs.ShapeP Proofs.C16P Proofs.C16ApiP.
 Import ListNotations.
 Open Scope N_scope.
 
@@ -77,6 +78,25 @@ Theorem C16_matrix_size_test_total : forall rows cols len, usz len ->
   flat_size_ok rows cols len = Ok (rows * cols =? len).
 Proof. exact flat_size_ok_total. Qed.
 
+(* API level: the D-dimensional checked getter of a sub-range view over a validated tensor, for
+   EVERY index tuple: never a panic, identical in both build profiles, equal to "map every
+   coordinate through its clipped range, then address the source"; and whatever it maps to lies
+   inside the source *)
+Theorem C16_tensor_range_get_total : forall m sh cl idx,
+  valid_shape sh -> elements sh <= usize_max -> ranges_ok sh cl ->
+  tensor_range_get m sh cl idx = Ok (tensor_range_get_spec sh cl idx).
+Proof. exact tensor_range_get_total. Qed.
+
+Theorem C16_tensor_range_get_mode_independent : forall sh cl idx,
+  valid_shape sh -> elements sh <= usize_max -> ranges_ok sh cl ->
+  tensor_range_get Debug sh cl idx = tensor_range_get Release sh cl idx.
+Proof. exact tensor_range_get_mode_independent. Qed.
+
+Theorem C16_tensor_range_maps_into_source : forall cl (sh : shape) idx j,
+  ranges_ok sh cl -> length idx = length cl ->
+  map_by_range_spec cl idx = Some j -> in_range j (lens_of sh).
+Proof. exact map_by_range_spec_in_range. Qed.
+
 (* non-vacuity: the boundary instance that used to fail (mask over a 2-element source, index
    usize::MAX) meets the hypotheses and is absent *)
 Example C16_nonvacuous :
@@ -98,3 +118,6 @@ Print Assumptions C16_get_index_direct_total.
 Print Assumptions C16_matrix_try_index_total.
 Print Assumptions C16_tensor_validation_total.
 Print Assumptions C16_matrix_size_test_total.
+Print Assumptions C16_tensor_range_get_total.
+Print Assumptions C16_tensor_range_get_mode_independent.
+Print Assumptions C16_tensor_range_maps_into_source.
